@@ -3,6 +3,7 @@ package main
 // Calls: builtins, inlining, contracts, externals, unknown calls; returns.
 
 import (
+	"os"
 	"fmt"
 	"go/types"
 	"strings"
@@ -310,6 +311,7 @@ type assignSet struct {
 	globals map[string]bool
 	anyFields map[string]map[int]bool // component -> fields assignable in every object
 	wholeComps map[string]bool        // components in which every object may change
+	onlyRefs []Term     // reach(x) with x private: any component may change, but only at these objects
 	allBelow *Term      // callback effect: every object older than this allocation mark may change ...
 	keep     *assignSet // ... except these
 }
@@ -376,6 +378,25 @@ func (env *CEnv) assignSetOfItems(items []AssignItem, where string) *assignSet {
 				as.anyFields[comp] = map[int]bool{}
 			}
 			as.anyFields[comp][fi] = true
+		case "reach":
+			x := env.eval(it.X)
+			refs, ok := []string(nil), false
+			if env.st != nil {
+				refs, ok = env.st.reachPrivate(x.T.S)
+			}
+			if !ok {
+				if os.Getenv("GOWP_DEBUG_REACH") != "" {
+					fmt.Fprintf(os.Stderr, "reach(%s): not private/closed: %s refs=%v\n", it.X, x.T.S, env.st.refsIn(x.T.S))
+				}
+				as.all = true
+				break
+			}
+			if as.onlyRefs == nil {
+				as.onlyRefs = []Term{}
+			}
+			for _, r := range refs {
+				as.onlyRefs = append(as.onlyRefs, Term{r, SInt})
+			}
 		case "callback":
 			var cb *FuncContract
 			for f := env.run.fn; f != nil && cb == nil; f = f.Parent() {
@@ -639,9 +660,6 @@ func (run *FuncRun) applyContract(st *State, fc *FuncContract, sig *types.Signat
 	}
 	where := run.posOf(in)
 	st.script.Comment("call " + fc.Key + " @ " + where)
-	for _, n := range names {
-		st.escape(env.vars[n].T.S)
-	}
 	// preconditions
 	for i, cl := range fc.Requires {
 		goals := env.proveGoals(cl.Expr)
@@ -677,10 +695,17 @@ func (run *FuncRun) applyContract(st *State, fc *FuncContract, sig *types.Signat
 			}
 			if as.all {
 				st.HavocAll("callee " + fc.Key + " assigns everything")
+			} else if as.onlyRefs != nil {
+				st.script.Comment("callee " + fc.Key + " writes only objects reachable from a destination private to this function")
+				st.newEpoch(pre, as)
 			} else {
 				run.havocAssignSet(st, pre, as)
 			}
 		}
+	}
+	// the arguments are now known to the callee
+	for _, n := range names {
+		st.escape(env.vars[n].T.S)
 	}
 	// results
 	res := run.freshResults(st, sig.Results(), "ret."+shortKey(fc.Key))
@@ -786,6 +811,14 @@ func (run *FuncRun) frameAxioms(name string, nw, old Term, preAlloc Term, as *as
 	r := run.freshName("r")
 	var conds []string
 	conds = append(conds, fmt.Sprintf("(< %s %s)", r, preAlloc.S))
+	if as != nil && as.onlyRefs != nil {
+		for _, w := range as.onlyRefs {
+			conds = append(conds, fmt.Sprintf("(not (= %s %s))", r, w.S))
+		}
+		out = append(out, fmt.Sprintf("(assert (forall ((%s Int)) (! (=> (and %s) (= (select %s %s) (select %s %s))) :pattern ((select %s %s)))))",
+			r, strings.Join(conds, " "), nw.S, r, old.S, r, nw.S, r))
+		return out
+	}
 	if as != nil && as.allBelow != nil && !(as.keep != nil && as.keep.wholeComps[name]) {
 		// callback effect: objects allocated since the enclosing function was entered, and the
 		// explicitly preserved ones, keep their contents; everything older may change
